@@ -6,8 +6,11 @@ coq/Props/Properties_C12.v), and tied to the real library by
   (a) translator validation: extracted model vs the REAL is_job_invalid() compiled from the /repo
       header, on generated descriptors (structured cells x single-field mutations, sampled pairs,
       raw random stream);
-  (b) behaviour through the public API (job API + async burst API) on every reachable manager:
-      status, errno, caller buffers and descriptor untouched, neighbouring valid jobs unaffected;
+  (b) behaviour through the public API (job API + async burst API + the SYNCHRONOUS cipher / hash / AEAD
+      burst API incl. the _NOCHECK entry points) on every reachable manager: status, errno, caller
+      buffers and descriptor untouched, neighbouring valid jobs unaffected; for the synchronous bursts the
+      verdict and errno must equal the extracted validation image on the view the burst function
+      validates (see "synchronous burst API" below);
   (m) misuse of the burst calls;  (d) direct-API NULL / over-limit table (forked children).
 The property oracle everywhere is the CATALOGUE (documentation), not the code.
 
@@ -350,6 +353,10 @@ def _rebind_paths():
 HARNESS_FLAGS = ["-O2", "-DSAFE_PARAM", "-DSAFE_DATA", "-DSAFE_LOOKUP", "-fno-delete-null-pointer-checks", "-fwrapv",
                  "-fno-strict-overflow"]   # the flags the library itself compiles the checker with
 STATUS_COMPLETED, STATUS_INVALID_ARGS = 3, 4
+# mode m rows marked `deviation:` (today: IMB_SUBMIT_HASH_BURST(jobs=NULL) reports IMB_ERR_NULL_JOB through the global
+# error variable only, its siblings IMB_ERR_NULL_BURST in the manager; the header documents no code for this call) are
+# recorded in the evidence; True turns them into failures (finding key C12-api-sequence-hash-burst-jobs-null).
+STRICT_MISUSE_ROWS = False
 TRUSTED = [
     "Coq 8.16.1 kernel + coqc; OCaml extraction (ExtrOcamlBasic) and ocamlopt",
     "T1 translators/t1_enums.py (clang JSON AST cross-checked with compiled C, gcc and clang)",
@@ -357,6 +364,8 @@ TRUSTED = [
     "hand-written catalogue coq/Mgr/Validate.v is the reading of the documentation (sources cited per rule)",
     "job_view abstraction (coq/Mgr/JobView.v): descriptor slots + 3DES key pointers + XGEM word + SGL array",
     "harness/k12_validate.c, gcc, the host CPU (SSE/AVX2/AVX512 managers)",
+    "synchronous burst API: checks/c12.py sync_view() = hand-read table of the arguments each submit_*_burst function of "
+    "lib/include/mb_mgr_burst.h passes to is_job_invalid() (not translated; a wrong argument shows up as a verdict difference)",
 ]
 DISC_KEYS = {   # discrepancy class -> (finding key, text)
     "D1": ("C12-D1-chacha20-poly1305-pairing", "cipher CHACHA20_POLY1305(_SGL) accepted with a hash other than its AEAD hash (README Table 3); job is processed"),
@@ -411,9 +420,12 @@ def build_model():
     return okc, "driver rebuilt" if okc else "extraction target reported errors (using existing extraction)\n" + out[-1500:]
 
 
+HNAME = "k12_validate"
+
+
 def build_harness():
-    exe = os.path.join(common.BUILD, "bin", "k12_validate")
-    deps = [os.path.join(common.HARNESS, "k12_validate.c"), os.path.join(common.REPO, "lib", "include", "mb_mgr_job_check.h"),
+    exe = os.path.join(common.BUILD, "bin", HNAME)
+    deps = [os.path.join(common.HARNESS, HNAME + ".c"), os.path.join(common.REPO, "lib", "include", "mb_mgr_job_check.h"),
             os.path.join(common.REPO, "lib", "intel-ipsec-mb.h"), os.path.join(common.LIBSO_DIR, "libIPSec_MB.so")]
     from . import c12_direct_extra
     inc, nextra = c12_direct_extra.generate()
@@ -422,7 +434,7 @@ def build_harness():
         return exe
     if os.path.exists(exe):
         os.remove(exe)
-    return common.build_harness("k12_validate", extra_flags=HARNESS_FLAGS + ["-DK12_EXTRA", "-I", os.path.dirname(inc)])
+    return common.build_harness(HNAME, extra_flags=HARNESS_FLAGS + ["-DK12_EXTRA", "-I", os.path.dirname(inc)])
 
 
 def shard_run(cmd_for, files, workers):
@@ -500,9 +512,18 @@ def run_real_a(exe, files, nlines):
     return out
 
 
-def run_real_b(exe, lines, prefix="b"):
+def run_real_b(exe, lines, prefix="b", sel=None):
+    """sel: optional selector string, one character per line ('0' job + async burst, '1' + synchronous burst,
+    '2' / '3' synchronous burst only, on a rotating pair of managers / on all); sharded exactly like the lines."""
     files = write_shards(lines, prefix, common.NCPU)
-    res = shard_run(lambda f: [exe, "b", f], files, common.NCPU)
+    if sel is not None:
+        assert len(sel) == len(lines)
+        base = 0
+        for f in files:
+            n = sum(1 for _ in open(f))
+            open(f[:-4] + ".sel", "w").write(sel[base:base + n] + "\n")
+            base += n
+    res = shard_run(lambda f: [exe, "b", f] + ([f[:-4] + ".sel"] if sel is not None else []), files, common.NCPU)
     recs, base, mgrs = [], 0, {}
     for (rc, o, e), f in zip(res, files):
         n = sum(1 for _ in open(f))
@@ -512,9 +533,11 @@ def run_real_b(exe, lines, prefix="b"):
             w = l.split()
             if w[0] == "M":
                 mgrs[w[1]] = w[2]
+            elif w[0] == "E":
+                mgrs["errno:" + w[1]] = w[2]
             elif w[0] == "R":
                 if len(w) < 5 or "=" not in w[4]:
-                    recs.append((base + int(w[1]), w[2], w[3] if len(w) > 3 else "", {"skip": 1}))
+                    recs.append((base + int(w[1]), w[2], w[3] if len(w) > 3 else "", {"skip": w[4] if len(w) > 4 else (w[3] if len(w) > 3 else "skip")}))
                 else:
                     recs.append((base + int(w[1]), w[2], w[3], {k: int(v) for k, v in (x.split("=") for x in w[4:])}))
         base += n
@@ -604,7 +627,7 @@ def select_b(tier, seed, lines, tags, model, cs_count):
     return sorted(set(idx))
 
 
-def b_safe(line, cat):
+def b_safe(line, cat, max_len=65535):
     """Can this descriptor be handed to the real library?  A job that the CATALOGUE accepts will be
     processed, so its buffers must really be as long as it says: such jobs are only submitted when
     every length fits the arena regions (several algorithms document no upper limit at all).  Jobs
@@ -612,7 +635,7 @@ def b_safe(line, cat):
     if cat != "ok":
         return True
     w = [int(x) for x in line.split()]
-    if w[IDX["cipher_len"]] > 65535 or w[IDX["hash_len"]] > 65535 or w[IDX["cipher_off"]] > 64 or w[IDX["hash_off"]] > 64:
+    if w[IDX["cipher_len"]] > max_len or w[IDX["hash_len"]] > max_len or w[IDX["cipher_off"]] > 64 or w[IDX["hash_off"]] > 64:
         return False
     if w[IDX["iv_len"]] > 2048 or w[IDX["tag_len"]] > 2048:
         return False
@@ -640,6 +663,8 @@ def analyse_b(recs, idx_map, lines, tags, model):
     """Check every API record against the catalogue.  Returns (failures, stats)."""
     fails, stats = [], collections.Counter()
     for ci, mgr, api, kv in recs:
+        if api == "sync":
+            continue     # analyse_sync
         gi = idx_map[ci]
         code, cat, wf, disc = model[gi]
         if "skip" in kv:
@@ -676,6 +701,156 @@ def analyse_b(recs, idx_map, lines, tags, model):
         else:
             stats["ok-accepted" if cat == "ok" else "ok-rejected"] += 1
     return fails, stats
+
+
+# =====================================================================================
+# synchronous burst API (IMB_SUBMIT_CIPHER_BURST / _HASH_BURST / _AEAD_BURST, lib/include/mb_mgr_burst.h)
+#   Third API kind of harness mode b.  Applicability and call arguments are derived from the descriptor
+#   (harness: sync_kind()); the EXPECTED verdict is the validation image's verdict on the view
+#   `sync_view(line)` = the descriptor with exactly the parameters the burst function hands to
+#   is_job_invalid():
+#     submit_aes_cbc_burst_enc/_dec, _ecb_enc/_dec_burst, _cfb_burst_enc/_dec : (cipher, IMB_AUTH_NULL, dir of the call, key_size)
+#     submit_aes_ctr_burst                                                     : (CNTR, IMB_AUTH_NULL, IMB_DIR_ENCRYPT, key_size)
+#     submit_burst_hmac_sha_x / submit_burst_sha_x                             : (IMB_CIPHER_NULL, hash, IMB_DIR_ENCRYPT, job->key_len_in_bytes)
+#     submit_aes_cmac_burst                                                    : (IMB_CIPHER_NULL, IMB_AUTH_AES_CMAC, IMB_DIR_ENCRYPT, job->key_len_in_bytes)
+#                         (the three CMAC labels share one case group, which reads job->hash_alg itself: the view keeps the job's hash)
+#     submit_aes_ccm_burst                                                     : (CCM, IMB_AUTH_AES_CCM, dir, key_size)
+#   plus the burst-level tests in front of them: submit_cipher_burst_and_check() refuses a direction other than
+#   ENCRYPT / DECRYPT with IMB_ERR_JOB_CIPH_DIR before looking at any job (no job status is written then).
+# =====================================================================================
+SYNC_CIPHER, SYNC_HASH, SYNC_AEAD = 1, 2, 3
+SYNC_CIPHER_MODES = (1, 2, 12, 26)                         # CBC, CNTR, ECB, CFB
+SYNC_HASH_ALGS = (1, 2, 3, 4, 5, 13, 14, 15, 16, 17, 12, 18, 27)
+SYNC_API = {1: "IMB_SUBMIT_CIPHER_BURST", 2: "IMB_SUBMIT_HASH_BURST", 3: "IMB_SUBMIT_AEAD_BURST"}
+SYNC_MAX_LEN = 0x1F000     # src / dst regions of the arena are 128 KiB each
+
+
+def sync_kind(w):
+    """0 = the synchronous burst API cannot run this descriptor (mirrors harness sync_kind())."""
+    cm, ha, key = w[IDX["cipher_mode"]], w[IDX["hash_alg"]], w[IDX["key_len"]]
+    if ha == 8 and cm in SYNC_CIPHER_MODES:
+        return SYNC_CIPHER if key < (1 << 32) else 0
+    if cm == 3 and ha in SYNC_HASH_ALGS:
+        return SYNC_HASH
+    if cm == 9 and ha == 11:
+        return SYNC_AEAD if key < (1 << 32) else 0
+    return 0
+
+
+def sync_view(line):
+    """(kind, view line the validation image is evaluated on, burst-level errno name or None)"""
+    w = [int(x) for x in line.split()]
+    k = sync_kind(w)
+    if not k:
+        return 0, None, None
+    early = None
+    if k == SYNC_CIPHER and w[IDX["dir"]] not in (ENC, DEC):
+        early = "IMB_ERR_JOB_CIPH_DIR"
+    elif (k == SYNC_CIPHER and w[IDX["cipher_mode"]] == 2) or k == SYNC_HASH:
+        w[IDX["dir"]] = ENC
+    return k, " ".join(map(str, w)), early
+
+
+def sync_alg_name(w, kind):
+    if kind == SYNC_HASH:
+        return HASHES[w[IDX["hash_alg"]]]["name"]
+    d = w[IDX["dir"]]
+    return "%s-%s" % (CIPHERS[w[IDX["cipher_mode"]]]["name"], {ENC: "ENC", DEC: "DEC"}.get(d, "dir%d" % d))
+
+
+def analyse_sync(recs, idx_map, lines, sync_model, errno_names):
+    """sync_model: global case index -> (kind, (code, cat, wf, disc) of sync_view, early-errno name).
+    Returns (failures [(gi, mgr, api-name, symptom, why, kv)], stats)."""
+    fails, stats = [], collections.Counter()
+    for ci, mgr, api, kv in recs:
+        if api != "sync":
+            continue
+        gi = idx_map[ci]
+        if "skip" in kv:
+            stats["skip:" + str(kv["skip"])] += 1
+            continue
+        kind, (code, cat, wf, disc), early = sync_model[gi]
+        apiname = SYNC_API[kind] + ("" if kv["chk"] else "_NOCHECK")
+        stats["records"] += 1
+        stats["records.%s" % apiname] += 1
+        exp_acc = code == "accept" and early is None
+        exp_err = None if exp_acc else (int(errno_names[early]) if early else int(code.split()[1]))
+        st, err, ret, n = kv["status"], kv["errno"], kv["ret"], kv["n"]
+        sym = why = None
+        if kv["phase"] == 1:
+            sym, why = "reference", "job-API reference run of the descriptor / the neighbour jobs failed: fault=%d rc=%d status=%d errno=%d" % (
+                kv["fault"], kv["rc"], kv["refst"], kv["referr"])
+        elif kv["fault"]:
+            sym = "fault"
+            why = "library-fault signal=%d inside %s (validation image: %s)" % (kv["fault"], apiname, "accept" if exp_acc else "reject %d -- the job should have been rejected" % exp_err)
+        elif kv["rc"]:
+            sym, why = "harness", "harness-protocol rc=%d" % kv["rc"]
+        elif not kv["chk"] and not exp_acc:
+            stats["nocheck-after-wrong-accept"] += 1     # the checked run of the same layout is already a failure
+            continue
+        elif exp_acc:
+            if ret == 0 and err != 0:
+                sym, why = "valid-rejected-%d" % err, "valid job rejected: ret=0 errno=%d status=%d (validation image: accept)" % (err, st)
+            elif ret != n or err != 0 or st != STATUS_COMPLETED:
+                sym, why = "valid-not-completed", "valid job not completed: ret=%d of %d errno=%d status=%d" % (ret, n, err, st)
+            elif kv["nbr"]:
+                sym, why = "neighbour", "accepted burst: a neighbouring valid job did not complete with its reference output"
+            elif kv["out"] == 1:
+                sym, why = "output", "accepted job: dst/tag differ from what IMB_SUBMIT_JOB produces for the same descriptor"
+            elif kv["out"] == -1:
+                sym, why = "reference", "accepted by the burst, but IMB_SUBMIT_JOB did not complete the same descriptor (status=%d errno=%d)" % (kv["refst"], kv["referr"])
+        else:
+            if not (ret == 0 and err != 0):
+                sym, why = "invalid-accepted", "invalid job not rejected: ret=%d of %d errno=%d status=%d (validation image: reject %d)" % (ret, n, err, st, exp_err)
+            elif err != exp_err:
+                sym, why = "errno-%d-not-%d" % (err, exp_err), "rejected with errno %d, the validation image gives %d" % (err, exp_err)
+            elif early is None and st != STATUS_INVALID_ARGS:
+                sym, why = "status", "rejected burst: status of the invalid job is %d, not IMB_STATUS_INVALID_ARGS" % st
+            elif kv["desc"] or kv["arena"]:
+                sym, why = "touched", "rejected burst: descriptor changed=%d buffers changed=%d" % (kv["desc"], kv["arena"])
+            elif kv["nbr"]:
+                sym, why = "neighbour", "rejected burst: a neighbouring valid job was touched, or the valid jobs alone no longer complete"
+            elif kv["order"]:
+                sym, why = "order", "rejected burst: IMB_STATUS_INVALID_ARGS is not (only) on the invalid job"
+        if sym:
+            fails.append((gi, mgr, apiname, sym, why + " [burst of %d, case at position %d]" % (n, kv["pos"]), kv))
+            stats["fail"] += 1
+        else:
+            stats[("ok-accepted" if exp_acc else "ok-rejected-early" if early else "ok-rejected") + ("" if kv["chk"] else "-nocheck")] += 1
+            stats["layout.%d/%d" % (kv["pos"], n)] += 1
+    return fails, stats
+
+
+def sync_replay_info(line, kind, sm, early, apiname):
+    w = [int(x) for x in line.split()]
+    args = {"cipher": w[IDX["cipher_mode"]], "dir": w[IDX["dir"]], "key_size": w[IDX["key_len"]]} if kind != SYNC_HASH else {"hash": w[IDX["hash_alg"]]}
+    return {"entry_point": apiname, "call_arguments": args, "algorithm": sync_alg_name(w, kind) + ("" if kind == SYNC_HASH else " key_len=%d" % w[IDX["key_len"]]),
+            "view_validated_by_the_burst_function": sync_view(line)[1], "burst_level_rejection": early,
+            "validation_image_on_that_view": {"code": sm[0], "catalogue": sm[1], "discrepancy": sm[3]},
+            "how": "k12_validate b <view> <selector '1'>: the descriptor sits in a contiguous IMB_JOB array at position pos of n, the other "
+                   "entries are valid jobs of the same algorithm; records `R 0 <mgr> sync ...` (see harness run_sync)"}
+
+
+def plan_sync(lines, model, real, bidx):
+    """Every generated case (all streams) the synchronous burst API can run goes through it: the ones that already
+    run through the job / async burst API get selector '1', the others are added as '2' (sync only).
+    Returns (case index list, selector string, {gi: (kind, view)}, counters)."""
+    cm_c, cm_h = {str(x) for x in SYNC_CIPHER_MODES}, {str(x) for x in SYNC_HASH_ALGS}
+    inb, cand, cnt = set(bidx), {}, collections.Counter()
+    for i, l in enumerate(lines):
+        f = l.split(" ", 19)
+        cm, ha = f[IDX["cipher_mode"]], f[IDX["hash_alg"]]
+        if not ((ha == "8" and cm in cm_c) or (cm == "3" and ha in cm_h) or (cm == "9" and ha == "11")):
+            continue
+        if not model[i][2] or real[i] == "skip":
+            cnt["not-well-formed-or-unsafe-view"] += 1
+            continue
+        k, view, early = sync_view(l)
+        if k:
+            cand[i] = (k, view, early)
+        else:
+            cnt["key-size-not-representable"] += 1
+    return cand, cnt
 
 
 def finding_class(disc, kind):
@@ -784,9 +959,28 @@ def main(tier, seed):
         extra.append(i)
     bidx = sorted(set(bidx) | set(extra))
     bidx = [i for i in bidx if model[i][2] and real[i] != "skip" and b_safe(lines[i], model[i][1])]
-    brecs, mgrs = run_real_b(exe, [lines[i] for i in bidx])
+    # synchronous burst API: expected verdict = the image on the view the burst function validates (sync_view)
+    scand, scnt = plan_sync(lines, model, real, bidx)
+    sgi = sorted(scand)
+    smodel, _ = run_model([scand[i][1] for i in sgi], prefix="syncview")
+    sync_model, inb = {}, set(bidx)
+    for i, m in zip(sgi, smodel):
+        k, view, early = scand[i]
+        # a job the image accepts WILL be processed: its lengths must fit the arena (as b_safe, with the real region size)
+        if b_safe(view, m[1], SYNC_MAX_LEN) and b_safe(lines[i], m[1], SYNC_MAX_LEN):
+            sync_model[i] = (k, m, early)
+        else:
+            scnt["accepted-but-too-long-for-the-arena"] += 1
+    bidx = sorted(inb | set(sync_model))
+    # sync-only cases: quick tier visits a rotating pair of managers per case, thorough tier all six
+    # (job/burst cases the synchronous API cannot run keep '1': the harness prints one skip-not-applicable record for each)
+    bsel = "".join(("0" if (i in scand and i not in sync_model) else "1") if i in inb else ("2" if tier == "quick" else "3") for i in bidx)
+    brecs, mgrs = run_real_b(exe, [lines[i] for i in bidx], sel=bsel)
     times["real_b"] = round(time.time() - t1, 1)
     bfails, bstats = analyse_b(brecs, bidx, lines, tags, model)
+    errno_names = {k[6:]: v for k, v in mgrs.items() if k.startswith("errno:")}
+    mgrs = {k: v for k, v in mgrs.items() if not k.startswith("errno:")}
+    sfails, sstats = analyse_sync(brecs, bidx, lines, sync_model, errno_names)
     by_case = collections.defaultdict(list)
     for ci, mgr, api, kv in brecs:
         by_case[bidx[ci]].append({"mgr": mgr, "api": api, **kv})
@@ -795,7 +989,8 @@ def main(tier, seed):
     t1 = time.time()
     pm = sh([exe, "m"], env=common.lib_env(), timeout=300)
     mlines = [l for l in pm.stdout.splitlines() if l.startswith("U ")]
-    mfail = [l for l in mlines if not l.rstrip().endswith("OK")]
+    mdev = [l for l in mlines if " deviation:" in l]     # rows that pass a lenient oracle but differ from the sibling entry points
+    mfail = [l for l in mlines if not l.rstrip().endswith("OK") or (STRICT_MISUSE_ROWS and l in mdev)]
     ps = sh([exe, "s"], env=common.lib_env(), timeout=600)
     slines = [l for l in ps.stdout.splitlines() if l.startswith("S ")]
     sfail = [l for l in slines if not l.rstrip().endswith("OK")]
@@ -856,6 +1051,19 @@ def main(tier, seed):
                     ",".join(sorted(set(x[0] for x in l if "library-fault" in x[2])))
             findings[cls] = (key, text + " -- e.g. " + l[0][2] + " on " + l[0][0] + "/" + l[0][1],
                              replay_obj(seed, tier, lines[gi], tags[gi], model[gi], real[gi], by_case.get(gi, []), l[0][2]), len(l))
+    # synchronous burst API: one finding per (entry point, algorithm + direction, symptom)
+    sgroups = collections.OrderedDict()
+    for gi, mgr, apiname, sym, why, kv in sfails:
+        w = [int(x) for x in lines[gi].split()]
+        sgroups.setdefault((apiname, sync_alg_name(w, sync_model[gi][0]), sym), []).append((gi, mgr, why, kv))
+    for (apiname, alg, sym), l in sgroups.items():
+        gi, mgr, why, kv = l[0]
+        kind, sm, early = sync_model[gi]
+        key = "C12-sync-%s-%s-%s" % (apiname[len("IMB_SUBMIT_"):], alg, sym)
+        robj = replay_obj(seed, tier, lines[gi], tags[gi], model[gi], real[gi], by_case.get(gi, []), why)
+        robj["sync"] = sync_replay_info(lines[gi], kind, sm, early, apiname)
+        findings["SYNC:" + key] = (key, "%s [%s]: %s -- e.g. on manager %s, descriptor tag %s; %d records on %d descriptors" % (
+            apiname, alg, why, mgr, "/".join(tags[gi]), len(l), len(set(x[0] for x in l))), robj, len(l))
     # statically detected classes that the API run did not confirm (should not happen)
     for cls, l in prop_fail.items():
         if cls not in findings and not any(gi in bfail_by_case for gi in l[:40]):
@@ -890,10 +1098,30 @@ def main(tier, seed):
                                   "skipped_not_well_formed_or_unsafe": stats["not-well-formed-or-unsafe"]},
         "light_check_tie": {"descriptors": len(lines), "model_ne_code": light_diff, "rejected": light_rej},
         "doc_vs_code_classes": {c: len(l) for c, l in prop_fail.items()},
-        "api_behaviour": {"cases": len(bidx), "records": bstats["records"], "managers": mgrs,
+        "api_behaviour": {"cases": len(bidx) - bsel.count("2") - bsel.count("3"), "records": bstats["records"], "managers": mgrs,
                           "ok_rejected": bstats["ok-rejected"], "ok_accepted": bstats["ok-accepted"], "fail": bstats["fail"],
                           "skipped": bstats["skipped-unsafe-view"]},
-        "burst_misuse": {"rows": len(mlines), "fail": len(mfail)},
+        "sync_burst_api": {
+            "cases": len(sync_model), "cases_sync_only": bsel.count("2") + bsel.count("3"), "records": sstats["records"], "fail": sstats["fail"],
+            "records_per_entry_point": {k[8:]: v for k, v in sstats.items() if k.startswith("records.")},
+            "ok_accepted": sstats["ok-accepted"], "ok_accepted_nocheck": sstats["ok-accepted-nocheck"],
+            "ok_rejected_by_job_validation": sstats["ok-rejected"], "ok_rejected_at_burst_level": sstats["ok-rejected-early"],
+            "layouts_pos/n": {k[7:]: v for k, v in sstats.items() if k.startswith("layout.")},
+            "kinds": dict(collections.Counter({1: "cipher", 2: "hash", 3: "aead"}[v[0]] for v in sync_model.values())),
+            "algorithms": dict(collections.Counter(sync_alg_name([int(x) for x in lines[i].split()], v[0]) for i, v in sync_model.items())),
+            "skipped": dict(scnt, **{"cases_not_applicable": sum(v for k, v in sstats.items() if k == "skip:skip-not-applicable"),
+                                     "records_unsafe_view": sstats["skip:skip-unsafe-view"]}),
+            "oracle": "verdict + errno == extracted validation image on the view the burst function validates (sync_view); rejected: ret 0, "
+                      "status INVALID_ARGS, descriptor/arena/neighbours untouched, valid jobs still complete; accepted: all COMPLETED, "
+                      "arena == arena after IMB_SUBMIT_JOB of the same descriptor, neighbours == job-API reference",
+        },
+        "entry_points_covered": ["IMB_SUBMIT_JOB", "IMB_SUBMIT_BURST", "imb_set_session (light check)",
+                                 "IMB_SUBMIT_CIPHER_BURST", "IMB_SUBMIT_CIPHER_BURST_NOCHECK (accepted jobs)",
+                                 "IMB_SUBMIT_HASH_BURST", "IMB_SUBMIT_HASH_BURST_NOCHECK (accepted jobs)",
+                                 "IMB_SUBMIT_AEAD_BURST", "IMB_SUBMIT_AEAD_BURST_NOCHECK (accepted jobs)",
+                                 "IMB_GET_NEXT_BURST / IMB_FLUSH_BURST (misuse rows)", "direct API (mode d table)"],
+        "burst_misuse": {"rows": len(mlines), "fail": len(mfail), "strict": STRICT_MISUSE_ROWS,
+                         "observations": sorted(set(re.sub(r"^U \S+ ", "", l) for l in mdev))},
         "burst_suite_id": {"rows": len(slines), "fail": len(sfail),
                            "cases": dict(collections.Counter(re.search(r"case=(\w+)", l).group(1) for l in slines if "case=" in l))},
         "suite_id_tie": {"descriptors": len(lines), "model_ne_code": suite_diff, "distinct_ids": suite_distinct},
@@ -904,6 +1132,10 @@ def main(tier, seed):
     })
     res.assumptions = [
         "C harness compiles the checker from the same header with the library's own flags; the library binary is exercised by tie (b)",
+        "level note: the theorems are about is_job_invalid()/submit_burst_and_check(); that the synchronous burst functions call it with the "
+        "right arguments for every job of the array is established dynamically only (tie (b) kind sync: every generated descriptor "
+        "the API can run, at the first / middle / last position of a burst, quick tier on a rotating pair of managers for descriptors that "
+        "do not also go through the job API)",
         "well_formed: field widths + (SGL ALL) segment list mirrors the array and the array does not wrap the address space",
         "quick tier assumes an incremental Coq build (ValidateProofs.vo ~2 min from scratch)",
     ]
@@ -914,7 +1146,7 @@ def main(tier, seed):
         if kf:
             res.known.append("%s %s (%d API failures)" % (key, note[:160], n))
         else:
-            res.violation(robj, "%s: %s" % (key, note[:300]), name=re.sub(r"[^A-Za-z0-9_.-]", "_", key)[:60])
+            res.violation(robj, "%s: %s" % (key, note[:400]), name=re.sub(r"[^A-Za-z0-9_.-]", "_", key)[:90 if key.startswith("C12-sync-") else 60])
     if broken and not res.violations:
         # broken obligation/correspondence but the failing-input search above found no input on which the
         # PROPERTY fails on the real library
@@ -924,8 +1156,8 @@ def main(tier, seed):
     elif broken:
         res.coverage["broken_obligations"] = broken
         log("broken obligations (a failing input WAS found, see violations): " + "; ".join(broken))
-    log("C12 %s: %d descriptors, model!=code %d, api cases %d (fail %d), misuse %d/%d, burst-suite %d/%d, direct %d/%d, %.1fs" % (
-        tier, stats["evaluated"], len(model_ne_code), len(bidx), bstats["fail"], len(mlines) - len(mfail), len(mlines),
+    log("C12 %s: %d descriptors, model!=code %d, api cases %d (fail %d), sync-burst cases %d records %d (fail %d), misuse %d/%d, burst-suite %d/%d, direct %d/%d, %.1fs" % (
+        tier, stats["evaluated"], len(model_ne_code), len(bidx), bstats["fail"], len(sync_model), sstats["records"], sstats["fail"], len(mlines) - len(mfail), len(mlines),
         len(slines) - len(sfail), len(slines), len(dlines) - len(dfail), len(dlines), time.time() - t0))
     return res.finish()
 
@@ -965,21 +1197,37 @@ def replay(path):
     f = os.path.join(WORK, "replay.b.txt")
     open(f, "w").write(line + "\n")
     pa = sh([exe, "a", f], env=common.lib_env())
-    pb = sh([exe, "b", f], env=common.lib_env())
+    m = model[0] if model else (r["model"]["code"], r["model"]["catalogue"], True, r["model"]["discrepancy"])
+    # synchronous burst API: expected verdict = validation image on the view the burst function validates
+    skind, sview, searly = sync_view(line)
+    sync_model = {}
+    if skind:
+        if os.path.exists(DRIVER):
+            sm = run_model([sview], prefix="replay.syncview")[0][0]
+        else:
+            si = r.get("sync", {}).get("validation_image_on_that_view")
+            sm = (si["code"], si["catalogue"], True, si["discrepancy"]) if si else None
+        if sm and b_safe(sview, sm[1], SYNC_MAX_LEN) and b_safe(line, sm[1], SYNC_MAX_LEN):
+            sync_model[0] = (skind, sm, searly)
+    job_api = "api_records" not in r or any(x.get("api") in ("job", "burst") for x in r["api_records"]) or not sync_model
+    sel = ("1" if sync_model else "0") if job_api else "3"
+    recs, mg = run_real_b(exe, [line], prefix="replay.b", sel=sel)
     print("view:", line)
     print("catalogue/model:", model[0] if model else r["model"])
     print("real is_job_invalid:", pa.stdout.strip())
-    print(pb.stdout)
-    m = model[0] if model else (r["model"]["code"], r["model"]["catalogue"], True, r["model"]["discrepancy"])
-    recs = []
-    for l in pb.stdout.splitlines():
-        w = l.split()
-        if w[0] == "R" and len(w) > 4 and "=" in w[4]:
-            recs.append((0, w[2], w[3], {k: int(v) for k, v in (x.split("=") for x in w[4:])}))
+    for ci, mgr, api, kv in recs:
+        print("R", mgr, api, " ".join("%s=%s" % x for x in kv.items()))
     fails, _ = analyse_b(recs, [0], [line], [tuple(r.get("tag", ["replay", "-", "-", "-"]))], [m])
     k = classify(pa.stdout.strip(), m[1], m[3])
     for gi, mgr, api, why, kv in fails:
         print("PROPERTY FAILS: %s/%s: %s" % (mgr, api, why))
+    sfails = []
+    if sync_model:
+        print("synchronous burst: %s, view validated by the burst function: %s" % (SYNC_API[skind], sview))
+        print("validation image on that view: %s%s" % (sync_model[0][1][0], " (burst-level: %s)" % searly if searly else ""))
+        sfails, _ = analyse_sync(recs, [0], [line], sync_model, {kk[6:]: v for kk, v in mg.items() if kk.startswith("errno:")})
+        for gi, mgr, apiname, sym, why, kv in sfails:
+            print("PROPERTY FAILS: %s/%s [%s]: %s" % (mgr, apiname, sync_alg_name([int(x) for x in line.split()], skind), why))
     if k:
         print("checker verdict vs documentation:", k)
-    return 1 if (fails or k) else 0
+    return 1 if (fails or sfails or k) else 0
